@@ -990,6 +990,153 @@ func RunGated(e *Env) {
 	}
 	close(work)
 	wg.Wait()
+	// connection reset while a request is queued (own proxied clusters)
+	nreset := e.Pick(60, 2000)
+	var rwg sync.WaitGroup
+	rsem := make(chan struct{}, 8)
+	for i := 0; i < nreset; i++ {
+		if e.Of > 1 && i%e.Of != e.Batch {
+			continue
+		}
+		if e.R.NumViolations() > 50 {
+			break
+		}
+		rr := rand.New(rand.NewSource(rng.Int63()))
+		rsem <- struct{}{}
+		rwg.Add(1)
+		go func(i int) {
+			defer rwg.Done()
+			defer func() { <-rsem }()
+			g.runResetWhileQueued(i, rr)
+		}(i)
+	}
+	rwg.Wait()
+}
+
+// runResetWhileQueued: one node's connection is reset while its request is still queued (sender held at a hook); the request
+// then goes out on the re-created stream and the node's handler answers. The node must contribute exactly one answer to the
+// call - a connection error or its reply - and if it is reported as failed the quorum function must never see an entry for it.
+func (g *gatedEngine) runResetWhileQueued(idx int, rng *rand.Rand) {
+	e := g.e
+	R := e.R
+	if e.Hooks == nil {
+		return
+	}
+	n := 2 + rng.Intn(3)
+	variant := []string{"QC", "QCPN", "QCCustom", "Async", "AsyncCombo"}[rng.Intn(5)]
+	cl, err := h.NewCluster(h.Options{N: n, Block: true, DialTimeout: 2 * time.Second, Proxies: true})
+	if err != nil {
+		R.Inconc("cluster: " + err.Error())
+		return
+	}
+	defer cl.Close()
+	cl.SetBehaviour(g.dir.Behaviour)
+	x := rng.Intn(n)
+	never := rng.Intn(2) == 0
+	token := h.NewToken()
+	req := &puppet.Req{Call: token, Seq: token, Kind: 7, Pad: []byte("reset")}
+	var f func(*puppet.Req, uint32) *puppet.Req
+	if IsPN(variant) {
+		f = PN(nil)
+	}
+	exp := map[uint32]uint64{}
+	plans := make([]*Plan, n)
+	for i := 0; i < n; i++ {
+		if f != nil {
+			exp[cl.IDs[i]] = h.Digest(f(req, cl.IDs[i]))
+		} else {
+			exp[cl.IDs[i]] = h.Digest(req)
+		}
+		plans[i] = g.dir.Set(token, cl.IDs[i], &Plan{Act: ActReply})
+	}
+	defer g.dir.Drop(token)
+	mon := &h.CallMon{Token: token, Orig: req, Decide: func(inv *h.Inv) (bool, int) { return !never && len(inv.Keys) >= n, len(inv.Keys) }}
+	cl.QS.Register(mon)
+	hold := e.Hooks.Hold("snd.dequeued", cl.IDs[x], 0, 5*time.Second)
+	var out Outcome
+	ctx, cancel := context.WithTimeout(context.Background(), 30*time.Second)
+	defer cancel()
+	task := h.Go("call:"+variant, func() {
+		if strings.HasPrefix(variant, "Async") {
+			out = StartAsync(cl.Cfg, variant, ctx, req, f).Get()
+		} else {
+			out = CallQC(cl.Cfg, variant, ctx, req, f)
+		}
+	})
+	steered := false
+	select {
+	case <-hold.Reached():
+		before := e.Hooks.Count("rcv.err", cl.IDs[x])
+		cl.Proxies[x].Reset()
+		e.Hooks.WaitCount("rcv.err", cl.IDs[x], before+1, 2*time.Second)
+		time.Sleep(10 * time.Millisecond) // the receiver re-creates the stream
+		steered = true
+	case <-time.After(2 * time.Second):
+	}
+	e.Hooks.Disarm(hold)
+	for i := 0; i < n; i++ {
+		w := e.W
+		if i == x {
+			w = 500 * time.Millisecond // its request may have been failed instead of sent
+		}
+		select {
+		case <-plans[i].Entered():
+		case <-time.After(w):
+		}
+		plans[i].Open()
+	}
+	hi := h.Await(task, e.W+2*time.Second)
+	if hi.Verdict == h.Hung {
+		g.viol("C02", "hang:reset-while-queued:"+hi.Sig, "call does not complete after a connection reset while its request was queued", map[string]any{"stack": hi.Stack, "others": hi.Others})
+		return
+	} else if hi.Verdict == h.Inconclusive {
+		R.Inconc("await: " + hi.State)
+		return
+	}
+	invs := mon.Invs()
+	det := map[string]any{"variant": variant, "n": n, "reset_node_index": x, "invocations": invs, "error": errText(out.Err), "steered": steered}
+	inQF := false
+	for _, inv := range invs {
+		for id, r := range inv.Reps {
+			if r.Call != token || r.Node != id || r.Digest != exp[id] {
+				g.viol("C01", "qf-foreign-reply", "reply set holds a reply that is not this node's answer to this call's request (after a connection reset)", det)
+				return
+			}
+			if id == cl.IDs[x] {
+				inQF = true
+			}
+		}
+	}
+	reported := false
+	if out.Err != nil {
+		if pe, ok := parseQCErr(out.Err.Error()); ok {
+			for id, lines := range pe.Nodes {
+				if id != cl.IDs[x] {
+					g.viol("C02", "error-for-wrong-node", fmt.Sprintf("node %d did not fail but is reported: %v", id, lines), det)
+					return
+				}
+				reported = true
+				if len(lines) > 1 {
+					g.viol("C02", "error-duplicated", fmt.Sprintf("node %d reported %d times", id, len(lines)), det)
+				}
+			}
+			if pe.Errors+pe.Replies != n {
+				g.viol("C02", "incomplete-sum", fmt.Sprintf("errors %d + replies %d != %d nodes", pe.Errors, pe.Replies, n), det)
+			}
+		}
+	}
+	if reported && inQF {
+		g.viol("C01", "qf-entry-for-failed-node", fmt.Sprintf("the quorum function was shown an entry for node %d, which the call reports as failed (connection reset while the request was queued)", cl.IDs[x]), det)
+	}
+	R.Eval(fmt.Sprintf("reset|%s|%d|%d|%v|%d", variant, n, x, never, idx), true)
+	if steered {
+		R.Count("reset_while_queued.steered", 1)
+	}
+	if reported {
+		R.Count("reset_while_queued.node_reported_failed", 1)
+	} else if inQF {
+		R.Count("reset_while_queued.node_replied", 1)
+	}
 }
 
 // gridScenarios enumerates, for cluster size n: scripts in {reply,error,silent}^n x all release orders x thresholds 1..n+1
